@@ -772,45 +772,59 @@ Proof.
   apply (lastApplied_centries clog clog_idx). lia.
 Qed.
 
-Lemma compact_phase s :
-  live s -> INV s -> BINV s ->
-  valid_seq (compactLogAt s) s
-  /\ let s' := exec_all (compactLogAt s) s in live s' /\ BINV s'.
+Lemma compact_tail s a :
+  live s -> INV s -> BINV s -> g_pos s = a -> a <> 0 ->
+  valid_seq [OCompactMark a; OCompactSave a] s
+  /\ let s' := exec_all [OCompactMark a; OCompactSave a] s in live s' /\ BINV s'.
 Proof.
-  intros L I B. unfold compactLogAt. rewrite (applied_after_BINV s B).
-  destruct (drain_phase (v_queue s) s L I eq_refl B) as (V2 & L2 & Q2 & P2 & A2 & Ap2 & D2 & S2 & T2).
-  cbn zeta in *. set (s2 := exec_all (drain (v_queue s)) s) in *.
-  pose proof (INV_exec_all clog clog_idx GS TrackHyp _ _ I V2) as I2. fold s2 in I2.
-  set (a := v_applying s) in *.
-  assert (B2 : BINV s2).
-  { unfold BINV. rewrite P2, A2, Q2, Ap2. split; [reflexivity|]. split.
-    - exists 0%nat. cbn [map concat]. rewrite centries_0. split; [reflexivity | lia].
-    - split; intros t []. }
-  destruct (a =? 0) eqn:Ea.
-  - split.
-    + apply valid_seq_app. split; [exact V2 | exact Logic.I].
-    + cbn zeta. rewrite exec_all_app. fold s2. rewrite exec_all_nil. split; assumption.
-  - apply N.eqb_neq in Ea.
-    assert (V3 : mop_valid (OCompactMark a) s2) by (cbn [RaftDriver_inv.mop_valid]; lia).
-    destruct (INV_exec clog clog_idx GS TrackHyp _ _ I2 L2 V3) as [I3 L3].
-    set (s3 := exec (OCompactMark a) s2) in *.
-    assert (E3 : s3 = emit (EvMark a) (set_d_applied a s2)).
-    { unfold s3. rewrite (exec_live _ _ L2), (i_durable _ _ _ I2). reflexivity. }
-    assert (F3 : g_pos s3 = a /\ v_applied s3 = a /\ v_queue s3 = [] /\ v_applying s3 = a)
-      by (rewrite E3; nsimpl; repeat split; assumption).
-    destruct F3 as (P3 & A3 & Q3 & Ap3).
-    assert (V4 : mop_valid (OCompactSave a) s3) by (cbn [RaftDriver_inv.mop_valid]; split; [congruence | lia]).
-    set (s4 := exec (OCompactSave a) s3).
-    assert (E4 : s4 = emit (EvSave None [] (Some (a, 0))) (set_durable_log (d_log s3) (d_hs s3) a (sm_hist s3) s3)).
-    { unfold s4. rewrite (exec_live _ _ L3). reflexivity. }
-    split.
-    + apply valid_seq_app. split; [exact V2|]. fold s2. cbn [RaftDriver_inv.valid_seq].
-      split; [intros _; exact V3|]. fold s3. split; [intros _; exact V4 | exact Logic.I].
-    + cbn zeta. rewrite exec_all_app. fold s2. rewrite !exec_all_cons, exec_all_nil. fold s3. fold s4.
-      split; [rewrite E4; destruct L3; split; nsimpl; assumption|].
-      rewrite E4. unfold BINV. nsimpl. rewrite P3, A3, Q3, Ap3. split; [reflexivity|]. split.
-      * exists 0%nat. cbn [map concat]. rewrite centries_0. split; [reflexivity | lia].
-      * split; intros t [].
+  intros L2 I2 B2 P2 Ea.
+  assert (V3 : mop_valid (OCompactMark a) s) by (cbn [RaftDriver_inv.mop_valid]; lia).
+  destruct (INV_exec clog clog_idx GS TrackHyp _ _ I2 L2 V3) as [I3 L3].
+  set (s3 := exec (OCompactMark a) s) in *.
+  assert (E3 : s3 = emit (EvMark a) (set_d_applied a s)).
+  { unfold s3. rewrite (exec_live _ _ L2), (i_durable _ _ _ I2). reflexivity. }
+  assert (V4 : mop_valid (OCompactSave a) s3).
+  { cbn [RaftDriver_inv.mop_valid]. rewrite E3. nsimpl. split; [congruence | lia]. }
+  set (s4 := exec (OCompactSave a) s3).
+  assert (E4 : s4 = emit (EvSave None [] (Some (a, 0))) (set_durable_log (d_log s3) (d_hs s3) a (sm_hist s3) s3)).
+  { unfold s4. rewrite (exec_live _ _ L3). reflexivity. }
+  split.
+  - cbn [RaftDriver_inv.valid_seq]. split; [intros _; exact V3|]. fold s3. split; [intros _; exact V4 | exact Logic.I].
+  - cbn zeta. rewrite !exec_all_cons, exec_all_nil. fold s3. fold s4.
+    split; [rewrite E4; destruct L3; split; nsimpl; assumption|].
+    destruct B2 as (Ba & Bq & Bne & Bp).
+    rewrite E4, E3. unfold BINV, dur_of, applied_ok. nsimpl. cbn [u_hs u_log].
+    split; [exact Ba|]. split; [exact Bq|]. split; [exact Bne | exact Bp].
+Qed.
+
+Lemma compact_phase s wait :
+  live s -> INV s -> BINV s ->
+  valid_seq (compactLogAt s wait) s
+  /\ let s' := exec_all (compactLogAt s wait) s in live s' /\ BINV s'.
+Proof.
+  intros L I B. unfold compactLogAt. destruct wait.
+  - rewrite (applied_after_BINV s B).
+    destruct (drain_phase (v_queue s) s L I eq_refl B) as (V2 & L2 & Q2 & P2 & A2 & Ap2 & D2 & S2 & T2).
+    cbn zeta in *. set (s2 := exec_all (drain (v_queue s)) s) in *.
+    pose proof (INV_exec_all clog clog_idx GS TrackHyp _ _ I V2) as I2. fold s2 in I2.
+    set (a := v_applying s) in *.
+    assert (B2 : BINV s2).
+    { unfold BINV. rewrite P2, A2, Q2, Ap2. split; [reflexivity|]. split.
+      - exists 0%nat. cbn [map concat]. rewrite centries_0. split; [reflexivity | lia].
+      - split; intros t []. }
+    destruct (a =? 0) eqn:Ea.
+    + split.
+      * apply valid_seq_app. split; [exact V2 | exact Logic.I].
+      * cbn zeta. rewrite exec_all_app. fold s2. rewrite exec_all_nil. split; assumption.
+    + apply N.eqb_neq in Ea.
+      destruct (compact_tail s2 a L2 I2 B2 P2 Ea) as (V3 & L3 & B3).
+      split.
+      * apply valid_seq_app. split; [exact V2 | exact V3].
+      * cbn zeta. rewrite exec_all_app. fold s2. split; assumption.
+  - cbn [app]. destruct (v_applied s =? 0) eqn:Ea.
+    + split; [exact Logic.I|]. cbn zeta. rewrite exec_all_nil. split; assumption.
+    + apply N.eqb_neq in Ea. destruct B as (Ba & Brest).
+      apply (compact_tail s (v_applied s) L I (conj Ba Brest) Ba Ea).
 Qed.
 
 Lemma crash_INV hard s : INV s -> INV (crash hard s) /\ ~ live (crash hard s).
@@ -890,7 +904,7 @@ Qed.
 
 Lemma step_SINV st s : SINV s -> step_ok st s -> SINV (step_node st s).
 Proof.
-  intros [I B] Hok. destruct st as [rd busy cut|cut|cmd acc|cut|hard|]; cbn [step_node step_ok] in *.
+  intros [I B] Hok. destruct st as [rd busy cut|cut|cmd acc|wait cut|hard|]; cbn [step_node step_ok] in *.
   - (* SReady *)
     destruct (v_up s) eqn:U; [|split; assumption].
     destruct (live_dec s) as [L|D].
@@ -920,7 +934,7 @@ Proof.
   - (* SCompact *)
     destruct (v_up s) eqn:U; [|split; assumption].
     destruct (live_dec s) as [L|D].
-    + destruct (compact_phase s L I (B L)) as (V & L' & B').
+    + destruct (compact_phase s wait L I (B L)) as (V & L' & B').
       apply exec_cut_SINV; [exact I | exact V | intros _; exact B'].
     + apply exec_cut_SINV; [exact I | apply valid_seq_dead, D|].
       rewrite exec_all_dead by exact D. exact B.
@@ -1000,7 +1014,7 @@ Qed.
 
 Lemma step_P st s : SINV s -> step_ok st s -> P s -> P (step_node st s).
 Proof.
-  intros [I B] Hok H. destruct st as [rd busy cut|cut|cmd acc|cut|hard|]; cbn [step_ok] in *.
+  intros [I B] Hok H. destruct st as [rd busy cut|cut|cmd acc|wait cut|hard|]; cbn [step_ok] in *.
   - cbn [step_node]. destruct (v_up s) eqn:U; [|exact H].
     apply P_exec_cut; [exact I | exact H|].
     destruct (live_dec s) as [L|D]; [apply (ready_phase rd busy s L I (B L) (Hok L)) | apply valid_seq_dead, D].
@@ -1011,7 +1025,7 @@ Proof.
   - apply P_propose; assumption.
   - cbn [step_node]. destruct (v_up s) eqn:U; [|exact H].
     apply P_exec_cut; [exact I | exact H|].
-    destruct (live_dec s) as [L|D]; [apply (compact_phase s L I (B L)) | apply valid_seq_dead, D].
+    destruct (live_dec s) as [L|D]; [apply (compact_phase s wait L I (B L)) | apply valid_seq_dead, D].
   - cbn [step_node]. apply P_crash; assumption.
   - cbn [step_node]. destruct (v_up s) eqn:U.
     + unfold newSlot. rewrite U. exact H.
